@@ -327,9 +327,13 @@ func runEntry(c *mon.Ctx, e *entry, skipped map[string]bool) {
 					continue
 				}
 				// value assignments: a few choices of distinct / equal values per block
-				for va := 0; va < 4; va++ {
+				for va := 0; va < c.Pick(4, 14); va++ {
 					vals := make([]int, nblocks)
 					for b := range vals {
+						if va >= 4 { // thorough: further generic / special mixtures
+							vals[b] = (va*7 + 3*b) % 23
+							continue
+						}
 						switch va {
 						case 0:
 							vals[b] = 3 + b // distinct generic values
